@@ -369,17 +369,21 @@ def isDigit (b : Nat) : Bool := decide (48 ≤ b) && decide (b ≤ 57)
 
 def digitsVal (ds : Bytes) : Nat := ds.foldl (fun acc b => acc * 10 + (b - 48)) 0
 
+/-- Optional sign and the rest. -/
+def signBody (s : Bytes) : Bool × Bytes :=
+  match s with
+  | 43 :: r => (false, r)
+  | 45 :: r => (true, r)
+  | r => (false, r)
+
 /-- `strconv.ParseInt(s, 10, 64)`: `none` = error (syntax or range). -/
 def parseInt64 (s : Bytes) : Option Int :=
-  let (neg, ds) : Bool × Bytes := match s with
-    | 43 :: r => (false, r)
-    | 45 :: r => (true, r)
-    | r => (false, r)
-  if ds = [] then none
-  else if !ds.all isDigit then none
+  let nb := signBody s
+  if nb.2 = [] then none
+  else if !nb.2.all isDigit then none
   else
-    let v : Int := digitsVal ds
-    if neg then (if v ≤ 9223372036854775808 then some (-v) else none)
+    let v : Int := digitsVal nb.2
+    if nb.1 then (if v ≤ 9223372036854775808 then some (-v) else none)
     else (if v ≤ maxInt then some v else none)
 
 /-- `getDoubleQuotesEnclosedValue`. -/
@@ -387,18 +391,25 @@ def unquote (t : Bytes) : Bytes × Bool :=
   if t.length ≥ 2 ∧ t.head? = some 34 ∧ t.getLast? = some 34 then ((t.drop 1).dropLast, true)
   else (t, false)
 
+/-- The `response_status` names as bytes (literal lists, so that the kernel can
+compute with them). -/
+def statusNames : List (Bytes × Status) :=
+  [([97,108,108], .all),
+   ([102,105,108,116,101,114,101,100], .filtered),
+   ([98,108,111,99,107,101,100], .blocked),
+   ([98,108,111,99,107,101,100,95,115,101,114,118,105,99,101,115], .blockedService),
+   ([98,108,111,99,107,101,100,95,115,97,102,101,98,114,111,119,115,105,110,103], .blockedSafebrowsing),
+   ([98,108,111,99,107,101,100,95,112,97,114,101,110,116,97,108], .blockedParental),
+   ([119,104,105,116,101,108,105,115,116,101,100], .whitelisted),
+   ([114,101,119,114,105,116,116,101,110], .rewritten),
+   ([115,97,102,101,95,115,101,97,114,99,104], .safeSearch),
+   ([112,114,111,99,101,115,115,101,100], .processed)]
+  -- all, filtered, blocked, blocked_services, blocked_safebrowsing, blocked_parental, whitelisted, rewritten, safe_search, processed
+
 def statusOfName (s : Bytes) : Option Status :=
-  if s = ofString "all" then some .all
-  else if s = ofString "filtered" then some .filtered
-  else if s = ofString "blocked" then some .blocked
-  else if s = ofString "blocked_services" then some .blockedService
-  else if s = ofString "blocked_safebrowsing" then some .blockedSafebrowsing
-  else if s = ofString "blocked_parental" then some .blockedParental
-  else if s = ofString "whitelisted" then some .whitelisted
-  else if s = ofString "rewritten" then some .rewritten
-  else if s = ofString "safe_search" then some .safeSearch
-  else if s = ofString "processed" then some .processed
-  else none
+  match statusNames.find? (fun x => x.1 == s) with
+  | some x => some x.2
+  | none => none
 
 /-- `older_than` after `time.Parse(time.RFC3339Nano, ·)` (library oracle). -/
 inductive OlderIn where
@@ -437,33 +448,49 @@ def parseStatus (r : Req) : Option (Option Criterion) :=
   | some v => some (some (.status v))
   | none => some none
 
+/-- `older_than`: `none` = error. -/
+def parseOlder (r : Req) : Option (Option Int) :=
+  match r.older with
+  | .bad => none
+  | .at t => some (some t)
+  | .absent => some none
+  | .zero => some none
+
+/-- `limit`: `none` = error; an unparsable value is skipped (default 500). -/
+def parseLimit (r : Req) : Option Int :=
+  match parseInt64 r.limitRaw with
+  | some v => if v < 0 ∨ v > maxInt then none else some v
+  | none => some 500
+
+/-- `offset` and the resulting `maxFileScanEntries`: `none` = error. -/
+def parseOffset (scanDefault : Int) (r : Req) (limit : Int) : Option (Int × Int) :=
+  match parseInt64 r.offsetRaw with
+  | some v => if v < 0 ∨ v > maxInt - limit then none else some (v, 0)
+  | none => some (0, scanDefault)
+
+def critList (t : Option Criterion) (st : Option Criterion) : List Criterion :=
+  (match t with | some c => [c] | none => []) ++ (match st with | some c => [c] | none => [])
+
 /-- `parseSearchParams`; `none` = error (HTTP 400).  `scanDefault` is
 `newSearchParams().maxFileScanEntries` (50000). -/
 def parseParams (scanDefault : Int) (r : Req) : Option Params :=
-  match r.older with
-  | .bad => none
-  | older =>
-    let olderThan : Option Int := match older with
-      | .at t => some t
-      | _ => none
-    let limitRes : Option Int := match parseInt64 r.limitRaw with
-      | some v => if v < 0 ∨ v > maxInt then none else some v
-      | none => some 500
-    match limitRes with
+  match parseOlder r with
+  | none => none
+  | some olderThan =>
+    match parseLimit r with
     | none => none
     | some limit =>
-      let offRes : Option (Int × Int) := match parseInt64 r.offsetRaw with
-        | some v => if v < 0 ∨ v > maxInt - limit then none else some (v, 0)
-        | none => some (0, scanDefault)
-      match offRes with
+      match parseOffset scanDefault r limit with
       | none => none
       | some (offset, scan) =>
         match parseStatus r with
         | some none => none
-        | st =>
-          let crit := (match parseTerm r with | some c => [c] | none => []) ++
-                      (match st with | some (some c) => [c] | _ => [])
-          some { olderThan := olderThan, criteria := crit, offset := offset, limit := limit, scan := scan }
+        | some (some c) =>
+          some { olderThan := olderThan, criteria := critList (parseTerm r) (some c),
+                 offset := offset, limit := limit, scan := scan }
+        | none =>
+          some { olderThan := olderThan, criteria := critList (parseTerm r) none,
+                 offset := offset, limit := limit, scan := scan }
 
 inductive Resp where
   | bad                                              -- HTTP 400
